@@ -104,5 +104,12 @@ mod tests;
 #[cfg(target_arch = "wasm32")]
 mod wasm;
 
+#[cfg(fast_qr_verif)]
+pub mod verif_hooks;
+
+#[cfg(all(fast_qr_verif, feature = "svg", not(target_arch = "wasm32")))]
+#[path = "wasm.rs"]
+pub mod wasm_host;
+
 #[cfg(target_arch = "wasm32")]
 pub use wasm::*;
